@@ -5,6 +5,6 @@ from checks.uper_common import ASSUMPTIONS, TRUSTED
 
 class Spec(runner.Spec):
     prop = "C06"
-    streams = [uper_streams.Violations()]
+    streams = [uper_streams.Violations(), uper_streams.CharsetTable()]
     assumptions = ASSUMPTIONS
     trusted_base = TRUSTED
